@@ -24,7 +24,7 @@ Constructs == {
     "nest-g", "nest-svg", "nest-a", "nest-text-content", "nest-loop", "nest-if",
     "reuse-self", "reuse-mutual", "reuse-chain", "use-chain", "use-self",
     "parens", "unary-minus", "nested-calls", "binary-chain", "comma-list", "string-concat",
-    "var-chain", "var-self", "var-growth",
+    "var-chain", "var-self", "var-rho", "var-growth",
     "path-length", "path-junk", "points-length", "transform-list", "bearing-length",
     "siblings", "siblings-text", "attrs-many", "attr-long", "text-long", "comment-long",
     "retry-chain", "retry-nested", "retry-nested-ws", "retry-siblings", "ref-cycle", "surround-chain", "loop-count", "loop-nested-count", "for-list",
@@ -37,7 +37,7 @@ DepthClasses == IF Tier = "quick" THEN {1, 10, 99, 100, 101, 1000, 20000}
 NestingConstructs == {"nest-g", "nest-a"}
 Allowed(k, n) ==
     IF k \in NestingConstructs THEN (IF n > 100 THEN {"err"} ELSE {"ok"})
-    ELSE IF k \in {"reuse-self", "reuse-mutual", "use-self", "var-self", "ref-cycle"} THEN {"err"}
+    ELSE IF k \in {"reuse-self", "reuse-mutual", "use-self", "var-self", "var-rho", "ref-cycle"} THEN {"err"}
     ELSE {"ok", "err"}
 
 DepthCases == {[fam |-> "depth", construct |-> k, n |-> n, allowed |-> Allowed(k, n)] : k \in Constructs, n \in DepthClasses}
